@@ -8,7 +8,7 @@ COMMON_ASSUMPTIONS = [
     "documents: parsed JSON value with numbers normalised, so 12 and 12.0 are the same document)",
     "the abstract attributes of a data object (family, timezone, disqualification names, calendar coverage) are measured on the real object "
     "when it is constructed and bound from the trace; whether they are the right ones is C10's question",
-    "verdicts are TLC's evaluation of LifecycleTrace.tla clauses; a rejected step ends the validation of its history",
+    "verdicts are TLC's evaluation of LifecycleTrace.tla clauses; after a rejected step validation continues with the abstract state the P-layer prescribes",
 ]
 
 
@@ -17,7 +17,7 @@ def plan(prop, tier):
     gated = [f for f in fam if f[0] != "caltrack"]
     q = tier == "quick"
     if prop == "C04":
-        return dict(scen=[("gate", gated), ("gate2", gated if not q else gated[:1])], per=(6 if q else 40),
+        return dict(scen=[("gate", gated), ("gate2", gated if not q else gated[:1]), ("refit", gated)], per=(6 if q else 40),
                     rule="histories new/fit/sweep/save/restart/load over baselines {qualified, too short, poor fit, gaps, other tz} x ignore flags; "
                          "a sweep predicts every (report kind, ignore flag, aggregation); distinct = distinct (abstract history, family, profile)",
                     extra=["C04 is decided for the three families that have a gate (daily, billing, hourly); the CalTRACK hourly wrapper has none",
